@@ -50,6 +50,34 @@ def build_mt_driver(ctx):
     return out
 
 
+def probe_shared_client(ctx, seconds=2):
+    """harness/sharedclient uses ONE ClockBoundClient from four threads through an Arc, without a lock.
+    The unchanged tree does not allow that (the compiler refuses: the reader is neither Send nor Sync and
+    now() takes &mut self); the probe records the refusal. A tree on which it compiles is run: every
+    answer must stem from one of the two published records. Returns (violations, info)."""
+    import json
+    ctx.ensure_ws()
+    p = ctx.cargo(["build", "--offline", "-p", "sharedclient", "--release"], "h-sharedclient-rel")
+    if p.returncode != 0:
+        codes = sorted(set(c for c in ("E0277", "E0596", "E0599", "E0308") if ("error[%s]" % c) in p.stdout))
+        if "could not compile `sharedclient`" in p.stdout and codes:
+            return [], {"one_client_shared_by_threads": "refused by the compiler (%s): unsynchronised sharing of a client is not expressible against this tree" % ", ".join(codes)}
+        return [], {"one_client_shared_by_threads": "probe did not build for another reason (not judged): %s" % p.stdout[-300:]}
+    binary = os.path.join(ctx.bdir, "h-sharedclient-rel", "release", "sharedclient")
+    out = os.path.join(ctx.tmp, "sharedclient.json")
+    try:
+        r = subprocess.run([binary, "--seconds", str(seconds), "--out", out], stdout=subprocess.PIPE, stderr=subprocess.PIPE, text=True, timeout=120)
+    except subprocess.TimeoutExpired:
+        return [], {"one_client_shared_by_threads": "compiles; run did not finish (not judged)"}
+    if r.returncode < 0 and -r.returncode in (4, 6, 7, 8, 11):
+        return [{"sig": "shared-client-crash", "detail": "one client shared by four threads (the tree allows it: the probe compiles): the process was killed by signal %d" % -r.returncode, "replay": ""}], {"one_client_shared_by_threads": "compiles"}
+    if r.returncode != 0 or not os.path.exists(out):
+        return [], {"one_client_shared_by_threads": "compiles; run failed (not judged): %s" % r.stderr[-200:]}
+    j = json.load(open(out))
+    viol = [{"sig": "shared-client-answer-from-no-single-record", "detail": "one client shared by four threads without a lock (this tree allows it: the probe compiles), the daemon alternating two records: " + v, "replay": ""} for v in j["violations"]]
+    return viol, {"one_client_shared_by_threads": "compiles on this tree", "calls": j["calls"], "publications": j["publications"]}
+
+
 MT_SCENARIOS = {"C03": ["handover"], "C02": ["threads"], "C14": ["threads"], "C16": ["threads"], "C18": ["fork"], "C17": ["nullerr", "handover"]}
 
 
